@@ -126,6 +126,8 @@ class Campaign:
                                                 if e["a"] in ("start", "endrun", "prestart", "preend", "unset")][:40]})
         # fine-grained conformance: a sample of the recorded executions must be behaviours of the algorithm model
         nconf = getattr(self, "nconf", 4)
+        if any(e["clonesrc"] for e in inst.const["tests"].values()):
+            nconf = 0      # cloned branches are not part of the algorithm model
         if nconf:
             # the algorithm model covers the default reuse scope (whole run)
             full = {"own", "swarm", "cluster", "shared"}
